@@ -546,10 +546,10 @@ def lambda_programs():
 # =============================================================================================
 def singleton_programs():
     progs = []
-    DEV = ("$Dev", "{ level: int, name: str }", Obj(level=I(0), name=S("")))
+    DEV = ("$Dev", "{ level: int, name: str }", None)     # (None: the default value of the type, HmsSem DefaultExpr)
     HOST = {"$Dev": (Obj(level=I(3), name=S("host")),
                      {"k": "obj", "fs": {"level": {"k": "int", "v": "3"}, "name": {"k": "str", "s": "host"}}})}
-    LST = ("$Log", "[int]", List())
+    LST = ("$Log", "[int]", None)
     LHOST = {"$Log": (List(I(4), I(5)), {"k": "list", "es": [{"k": "int", "v": "4"}, {"k": "int", "v": "5"}]})}
 
     def fns(main_body, extra=None):
@@ -583,6 +583,15 @@ def singleton_programs():
     for hosted in (False, True):
         progs.append(Program("sing_list_%s" % ("host" if hosted else "zero"), lf, sings=[LST], host=LHOST if hosted else None,
                              feats={"family": "singleton", "template": "list", "hosted": hosted}))
+    # a singleton of every type that has a default value, never provided by the host
+    ALL = ("$All", "{ i: int, f: float, b: bool, s: str, n: null, r: range, l: [int], ll: [[str]], o: ?int, a: { x: int, y: { z: [bool], w: ?str } } }", None)
+    af = {"touch": Fn([], Block([Expr(Asg(Mem(V("all"), "i"), I(1), "+=")), Expr(MCall(Mem(V("all"), "l"), "push", Mem(V("all"), "i"))),
+                                 Expr(Asg(Mem(Mem(V("all"), "a"), "x"), I(5)))]), sps=[("all", "$All")]),
+          "main": Fn([], Block([Print(V("$All")), Print(Mem(V("$All"), "i"), Mem(V("$All"), "f"), Mem(V("$All"), "b"), MCall(Mem(V("$All"), "s"), "len"),
+                                      Mem(V("$All"), "r"), Mem(V("$All"), "l"), Mem(V("$All"), "o"), Mem(Mem(Mem(V("$All"), "a"), "y"), "z")),
+                                Expr(Call("touch")), Expr(Call("touch")), Print(V("$All")),
+                                For("k", Mem(V("$All"), "r"), Block([Print(S("never"), V("k"))]))]))}
+    progs.append(Program("sing_defaults_all_types", af, sings=[ALL], feats={"family": "singleton", "template": "defaults", "hosted": False}))
     # trigger statements: callback, event and arguments (evaluated in order) reach the host
     tf = {"cb": Fn(["elapsed"], Block([Print(S("cb"), V("elapsed"))]), event=True),
           "p": Fn(["n"], Block([Print(S("p"), V("n"))], V("n")), ret="int"),
